@@ -199,6 +199,69 @@ def sc_records(tag, j, g, rng):
     return out
 
 
+def di_records(tag, j, g, rng):
+    """DiHypergraph.cleanup over its flag combinations, in place and not (spec NetOps.DiCleanupOK)"""
+    out = []
+    if not j["nodes"]:
+        return out
+    order = list(j["nodes"])
+    rng.shuffle(order)  # isolated nodes are not the last ones created
+    split = []
+    for m in j["e2n"]:
+        t, h = [], []
+        for n in m:
+            c = rng.choice(["t", "h", "th"])
+            if "t" in c:
+                t.append(n)
+            if "h" in c:
+                h.append(n)
+        split.append((t, h))
+
+    def make():
+        D = xgi.DiHypergraph()
+        D.add_nodes_from([g.node(n) for n in order])
+        for e, (t, h) in zip(j["edges"], split):
+            D.add_edge(([g.node(n) for n in t], [g.node(n) for n in h]), idx=g.edge(e))
+        return D
+
+    for iso, rel, inplace in itertools.product([False, True], repeat=3):
+        D = make()
+        before = (list(D.nodes), {e: (set(D._edge[e]["in"]), set(D._edge[e]["out"])) for e in D.edges})
+        r, res = _do(lambda: D.cleanup(isolates=iso, relabel=rel, in_place=inplace))
+        anom = []
+        rec = {"rid": f"{tag}.dicleanup.{int(iso)}{int(rel)}{int(inplace)}", "fn": "dicleanup", "res": res,
+               "what": f"DiHypergraph.cleanup(isolates={iso}, relabel={rel}, in_place={inplace}) ({g.name})",
+               "b": [iso, rel, inplace], "dn": list(order), "di": list(j["edges"]), "dt": [t for t, _ in split],
+               "dh": [h for _, h in split], "rn": [], "ri": [], "rt": [], "rh": [], "on": [], "oe": [],
+               "src": dict(EMPTYJ, nodes=list(order), e2n=[list(m) for m in j["e2n"]]), "src2": EMPTYJ, "dst": EMPTYJ,
+               "ns": [], "es": [], "k": 0}
+        if res == "ok":
+            if inplace and r is not D and r is not None:
+                anom.append("in-place-cleanup-returned-another-object")
+            R = D if inplace else r
+            if not inplace and (list(D.nodes), {e: (set(D._edge[e]["in"]), set(D._edge[e]["out"])) for e in D.edges}) != before:
+                anom.append("input-changed")
+            try:
+                if rel:
+                    lab = lambda x: x if isinstance(x, int) and not isinstance(x, bool) else -7  # noqa: E731
+                    rec["rn"] = [lab(n) for n in R.nodes]
+                    rec["ri"] = [lab(e) for e in R.edges]
+                    rec["rt"] = [[lab(n) for n in R._edge[e]["in"]] for e in R.edges]
+                    rec["rh"] = [[lab(n) for n in R._edge[e]["out"]] for e in R.edges]
+                    rec["on"] = [g.inv_node(R._node_attr[n]["label"]) for n in R.nodes]
+                    rec["oe"] = [g.inv_edge(R._edge_attr[e]["label"]) for e in R.edges]
+                else:
+                    rec["rn"] = rec["on"] = [g.inv_node(n) for n in R.nodes]
+                    rec["ri"] = rec["oe"] = [g.inv_edge(e) for e in R.edges]
+                    rec["rt"] = [[g.inv_node(n) for n in R._edge[e]["in"]] for e in R.edges]
+                    rec["rh"] = [[g.inv_node(n) for n in R._edge[e]["out"]] for e in R.edges]
+            except Exception as ex:  # noqa: BLE001
+                anom.append(f"result-unreadable.{hg.classify(ex)}")
+        rec["anom"] = anom
+        out.append(rec)
+    return out
+
+
 def _worker(args):
     states, base, seed_, tier = args
     out = []
@@ -208,6 +271,7 @@ def _worker(args):
         g = Gamma(*(nets.FAMS + [("tuple", "int"), ("negint", "int")])[(base + k) % (len(nets.FAMS) + 2)])
         out += records_for(f"s{base + k}", j, g, rng, tier)
         out += sc_records(f"s{base + k}sc", j, g, rng)
+        out += di_records(f"s{base + k}di", j, g, rng)
     return out
 
 
